@@ -25,13 +25,13 @@ Proof.
   - destruct fuel as [|f]; [lia|]. cbn [cts_burst]. rewrite Hget, Hx.
     replace (x + Z.of_nat 0) with x in * by lia.
     assert ((x <? s_num b) = true) as -> by lia.
-    rewrite Hw. rewrite Z.eqb_refl. cbn [flat dts].
+    rewrite Hw, Hiv. rewrite Z.eqb_refl. cbn [flat dts].
     replace (x + 0 + 1) with (x + 1) by lia.
     destruct (flat (k _)) as [[s os] r]. reflexivity.
   - destruct fuel as [|f]; [lia|]. cbn [cts_burst]. rewrite Hget, Hx.
     assert ((x <? s_num b) = true) as -> by lia.
-    rewrite Hw. assert ((x =? x + Z.of_nat (S g)) = false) as -> by lia.
-    rewrite Hiv. cbn [flat].
+    rewrite Hw, Hiv. assert ((x =? x + Z.of_nat (S g)) = false) as -> by lia.
+    cbn [flat].
     set (b1 := upd_sbuf b (s_state b) (s_deadline b) (x + 1)).
     rewrite (IH f (set_snd n (tset (n_snd n) key b1)) b1 (x + 1) k).
     + cbn [n_snd set_snd]. rewrite tset_tset_same.
@@ -68,7 +68,7 @@ Section Originator.
     tget (n_snd n) h = Some b -> s_next b = x -> 0 <= x -> 1 <= g -> x + g <= s_num b -> 0 <= pgn < 16777216 ->
     flat (process_tp_cm prio dest sa (f_data (tp21_cts dest sa g (x + 1) pgn)) now n) =
     (wake (set_snd n (tset (n_snd n) h
-        (with_waitcts (upd_sbuf b ST_SENDING_IN_CTS now x) (Some (x + g - 1))))), [], RDone 0).
+        (with_waitcts (upd_sbuf b ST_SENDING_IN_CTS (Z.max now (s_nb b)) x) (Some (x + g - 1))))), [], RDone 0).
   Proof.
     intros Hget Hx Hx0 Hg Hle Hp.
     destruct (cts_fields dest sa g (x + 1) pgn Hp) as (L & C & P & N & X).
